@@ -1119,13 +1119,20 @@ if __name__ == "__main__" and "--worker" in sys.argv:
 HISTORY_FAMILIES_QUICK = ("chain", "chain_text", "chain_sibling", "attrs_same", "repeated", "twins", "pre_nested", "builderless")
 
 
+HISTORY_OPS_QUICK_RANDOM = ("nc_replace_with", "nc_insert_before", "nc_append_to_parent", "nc_wrap_in_copy", "tw_index", "tw_extract",
+                            "tw_replace_with_sibling", "tw_decode", "tw_smooth", "tw_insert_after")
+
+
 def _jobs_for(fam: str, thorough: bool = True):
     jobs = []
     for op, v in OPS.items():
         kind = v[0]
-        if (not thorough and op.startswith(("nc_", "tw_")) and not fam.startswith("random:")
-                and fam not in HISTORY_FAMILIES_QUICK):
-            continue
+        if not thorough and op.startswith(("nc_", "tw_")):
+            if fam.startswith("random:"):
+                if op not in HISTORY_OPS_QUICK_RANDOM:
+                    continue
+            elif fam not in HISTORY_FAMILIES_QUICK:
+                continue
         if applicable(op, fam, "raw"):
             jobs.append((op, "raw"))
         if kind in ("markup", "doc") and applicable(op, fam, "parsed"):
@@ -1350,10 +1357,98 @@ def run_events_stream(ctx):
                           stream="events", no_failing_input=True)
 
 
+# --------------------------------------------------------------------------------------
+# stream "state": the document object's __dict__ and __getstate__() against the Lean field-level mirror
+# --------------------------------------------------------------------------------------
+def classify_value(soup, v):
+    from bs4.element import PageElement
+    if _state_refs(soup, {"x": v}):
+        return "tree"
+    stack, seen = [v], set()
+    while stack:
+        x = stack.pop()
+        if x is soup:
+            return "self"
+        if id(x) in seen or isinstance(x, (str, bytes, int, float, type)) or x is None:
+            continue
+        seen.add(id(x))
+        if isinstance(x, dict):
+            stack.extend(x.values())
+        elif isinstance(x, (list, tuple, set, frozenset)):
+            stack.extend(x)
+    return "flat"
+
+
+def run_state_stream(ctx):
+    import copy
+    from .common import Driver
+    from bs4 import BeautifulSoup
+    r = ctx.rng("state")
+    tables = {c: config_tables(c) for c in CONFIG_NAMES}
+    fams = [f for f in FAMILIES if is_markup_only(f)] + ["chain_text", "pre_nested", "rt_nested", "repeated", "twins", "chain_void"]
+    lines, reals, cases = [], [], []
+    for fam in fams:
+        base, cfgname = split_family(fam)
+        for n in (1, 2, r.randint(3, 12)):
+            ev = family_events(fam, n)
+            markup = events_markup(ev)
+            toks = events_tokens(ev, False)
+            pre, sc = tables[cfgname]
+            for history in ("parsed", "insert0", "copy", "unpickled"):
+                soup = BeautifulSoup(markup, "html.parser", **config_kwargs(cfgname))
+                hist_toks, linked, most = toks, 0, 1
+                if history == "insert0":
+                    soup.insert(0, "lead")
+                    linked = 1
+                elif history == "copy":
+                    soup = copy.copy(soup)
+                    hist_toks, linked, most = "-", 1, 0           # the clone parsed "", then was appended to
+                elif history == "unpickled":
+                    import pickle
+                    soup = pickle.loads(pickle.dumps(soup))       # __setstate__: reset + _feed of the rendered markup
+                haskids = 1 if soup.contents else 0
+                before = {k: classify_value(soup, v) for k, v in soup.__dict__.items()}
+                after = {k: classify_value(soup, v) for k, v in soup.__getstate__().items()}
+                reals.append((before, after))
+                lines.append("c11 state new %d %d %d %s %s %s" % (linked, haskids, most, ",".join(map(str, pre)) or "-",
+                                                                  ",".join(map(str, sc)) or "-", hist_toks))
+                cases.append({"stream": "state", "family": fam, "n": n, "history": history, "markup": markup, "config": cfgname})
+                soup.decompose()
+    replies = Driver().ask(lines)
+    for (before, after), rep, case in zip(reals, replies, cases):
+        ctx.case(("state", case["family"], case["n"], case["history"]))
+        ctx.count("state:" + case["history"])
+        try:
+            mb, ma = [dict(x.split("=") for x in part.split()) for part in rep.split(" | ")]
+        except ValueError:
+            raise RuntimeError("driver reply malformed: " + rep[:200])
+        bad = []
+        for which, real, model in (("__dict__", before, mb), ("__getstate__()", after, ma)):
+            for k, v in model.items():
+                if k in real and real[k] != v:
+                    bad.append("%s[%r]: real %s, mirror %s" % (which, k, real[k], v))
+                if k not in real and v != "flat" and not (k == "_most_recent_element"):
+                    bad.append("%s[%r]: absent in the real dict, mirror %s" % (which, k, v))
+            for k, v in real.items():
+                if k not in model and v == "tree":
+                    bad.append("%s[%r] holds tree objects; the mirror does not know this attribute" % (which, k))
+            if which == "__getstate__()" and "_most_recent_element" in real:
+                bad.append("__getstate__() kept _most_recent_element")
+        leak = [k for k, v in after.items() if v == "tree"]
+        if leak:
+            ctx.violation("the state handed to pickle holds tree objects", case=case, expected="no Tag/NavigableString under any key",
+                          observed={k: after[k] for k in leak}, model=rep, stream="state")
+        elif bad:
+            ctx.corr_disagreements += 1
+            ctx.violation("the document object's __dict__/__getstate__() and the Lean field-level mirror differ", case=case,
+                          expected=rep, observed=bad[:6], model=rep, stream="state", no_failing_input=True)
+
+
 def run(ctx):
     from .common import REPO
     if ctx.lean is None or ctx.lean.driver_ok:
         run_events_stream(ctx)
+        run_state_stream(ctx)
     ctx.rule = ("one case = (operation, shape family, construction) with the operation measured at every depth of the tier and "
                 "run once more beyond the recursion limit; non-trivial = the operation ran (did not reject the shape) at every "
                 "depth. Oracle: call depth grows by <= %d between consecutive depths (seeded random shapes, which are not homogeneous: "
